@@ -9,9 +9,11 @@ import itertools
 import tarfile
 
 ABS = '@ABS@'
+WD = '@WD@'     # the staging destination itself: '@WD@x/ax' is an absolute name in a sibling directory whose name
+#                 merely *starts with* the destination's name (textual-prefix collision)
 
 # ------------------------------------------------------------------------------------------------------ archives
-NAMES = ['a', 'd', 'd/a', './a', '../x', 'd/../../x', '../outside-file', ABS + '/ax']
+NAMES = ['a', 'd', 'd/a', './a', '../x', 'd/../../x', '../outside-file', ABS + '/ax', WD + 'x/ax']
 KINDS = [('file', None), ('dir', None),
          ('sym', 'a'), ('sym', '..'), ('sym', '../x'), ('sym', ABS),
          ('hard', 'a'), ('hard', '../outside-file')]
@@ -46,11 +48,19 @@ def archive_by_index(n_members, index):
     return [dict(alpha[d]) for d in reversed(digits)]
 
 
-def subst(s, abs_dir):
-    return None if s is None else s.replace(ABS, abs_dir)
+def subst(s, abs_dir, wd=None):
+    if s is None:
+        return None
+    s = s.replace(ABS, abs_dir)
+    return s.replace(WD, wd) if wd is not None else s
 
 
-def build_tar(members, abs_dir, compress=''):
+def realise(members, abs_dir, wd):
+    """The member list with the placeholders replaced by real absolute paths."""
+    return [dict(m, name=subst(m['name'], abs_dir, wd), link=subst(m['link'], abs_dir, wd)) for m in members]
+
+
+def build_tar(members, abs_dir='', compress=''):
     """bytes of a tar archive with exactly these members (names and link names are stored verbatim)."""
     buf = io.BytesIO()
     with tarfile.open(fileobj=buf, mode='w:' + compress, format=tarfile.GNU_FORMAT) as t:
